@@ -6,6 +6,7 @@
    theorem needs is an explicit hypothesis (`AeadOK`, `Authentic`, `BoxBinds`, `HandshakeOK`),
    never an axiom.  Helper lemmas: Proofs/Framing.lean. -/
 import LdkModel.Proofs.Framing
+import LdkModel.Generated.NoiseConsts
 namespace Ldk.C15
 open Ldk.Noise Ldk.Framing
 
@@ -102,6 +103,21 @@ theorem tamper_disconnects (hc : AeadOK c) (ha : Authentic c) (s : Sender) (pre 
         recv_body_bad c _ _ mⱼ.length (by simp [hl])]
     · simp
     · rw [List.take_left' hl]; exact open_none_of_not_valid ha hbad
+
+/-- **Exact sequence or nothing.** For ANY byte string whatsoever (any adversarial traffic, cut
+    into reads in any way) fed to a receiver that is in sync with sender state `s`: under AEAD
+    authenticity, the list of messages it delivers is such that the bytes read begin with exactly
+    the genuine frames `sendAll s msgs` of those messages, in that order, sealed under the in-sync
+    keys and nonces ("accepts ⇒ the MAC equations hold", frame by frame); each delivered message has
+    2…65535 bytes; and what follows those frames delivered nothing. -/
+theorem delivered_is_genuine (hc : AeadOK c) (ha : Authentic c) (s : Sender) (chunks : List Bytes)
+    (msgs : List Bytes) (r' : Option Receiver)
+    (h : recvChunks c (Receiver.mirrorOf s) chunks = (msgs, r')) :
+    ∃ rest, chunks.flatten = (sendAll c s msgs).1 ++ rest ∧ MsgsOK msgs
+      ∧ recvData c (Receiver.mirrorOf (sendAll c s msgs).2) rest = ([], r') := by
+  rw [recvChunks_flatten] at h
+  obtain ⟨rest, h1, h2, h3⟩ := delivered_all_genuine c hc ha msgs s _ r' h
+  exact ⟨rest, h1, h2, h3.symm⟩
 
 /-- a box sealed under one (key, nonce) is not a box under another — the binding property of the
     AEAD that replay protection rests on (hypothesis, not axiom) -/
@@ -258,6 +274,20 @@ theorem handshake_then_transport (hc : HandshakeOK c) (sI eI sR eR : Bytes) :
   refine ⟨kI, kR, h, ?_, ?_⟩ <;>
     simp [Receiver.ofKeys, Receiver.start, Receiver.mirrorOf, Sender.ofKeys, *]
 
+/-- **Tie of the model's literals to the source.** The rotation threshold, the Noise constants and
+    the buffer / box sizes are literals in peer_channel_encryptor.rs and peer_handler.rs; they are
+    re-extracted on every run (tools/gen_noise_consts.py → Generated/NoiseConsts.lean) and must equal
+    the literals the model uses (`ROTATE_AT`, `NOISE_CK`, `NOISE_H`, `Receiver.start` = 18-byte
+    header, acts of 50 / 50 / 66 bytes, 16-byte tags, `msg_len < 2`). -/
+theorem model_constants_match_source :
+    ROTATE_AT = NoiseConsts.ROTATE_AT_SEND ∧ ROTATE_AT = NoiseConsts.ROTATE_AT_RECV
+    ∧ Noise.NOISE_CK = NoiseConsts.NOISE_CK ∧ Noise.NOISE_H = NoiseConsts.NOISE_H
+    ∧ (Receiver.start [] []).need = NoiseConsts.HEADER_BOX_LEN
+    ∧ NoiseConsts.PEER_HEADER_READ_LEN = NoiseConsts.HEADER_BOX_LEN
+    ∧ NoiseConsts.ACT_ONE_TWO_LEN = 50 ∧ NoiseConsts.PEER_FIRST_READ_LEN = 50
+    ∧ NoiseConsts.ACT_THREE_LEN = 66 ∧ NoiseConsts.TAG_LEN = 16 ∧ NoiseConsts.MIN_MSG_LEN = 2 := by
+  decide
+
 /-! ### non-vacuity: a toy crypto instance satisfying every hypothesis, and the theorems applied -/
 
 def toyTag (k : Bytes) (n : Nat) (ad m : Bytes) : Bytes :=
@@ -326,6 +356,13 @@ example (rest : Bytes) (chunks : List Bytes)
       have h2 := congrArg List.getLast? hp
       simp [toy, toyTag, this] at h2
       revert h2; decide)) chunks h
+
+-- whatever is delivered was genuinely framed: instantiated on the toy AEAD
+example (chunks : List Bytes) (m : Bytes) (r' : Option Receiver)
+    (h : recvChunks toy (Receiver.mirrorOf s0) chunks = ([m], r')) :
+    ∃ rest, chunks.flatten = (frame toy s0 m).1 ++ rest := by
+  obtain ⟨rest, h1, _, _⟩ := delivered_is_genuine toy toy_aeadOK toy_authentic s0 chunks [m] r' h
+  exact ⟨rest, by simpa [sendAll] using h1⟩
 
 example : ∃ kI kR, runHandshake toy [1] [2] [3] [4] = some (kI, toy.pubOf [1], kR) ∧ kI.sk = kR.rk :=
   let ⟨kI, kR, h, h1, _⟩ := handshake_keys_match toy toy_handshakeOK [1] [2] [3] [4]
